@@ -21,7 +21,7 @@ pub fn budget(prop: &str, tier: &str) -> Budget {
     let (q, t): (u64, u64) = match prop {
         "C04" => (150, 4_000),
         "C10" | "C19" => (1_500, 60_000),
-        "C11" => (160, 8_000),
+        "C11" => (1_600, 80_000),
         "C20" => (3_000, 200_000),
         "C15" | "C17" | "C18" => (2_000, 100_000),
         "C01" | "C02" | "C09" => (3_000, 200_000),
